@@ -24,7 +24,7 @@ from typing import Dict, List, Set, Tuple
 from ..model import AnalysisError, ClassInfo, FunctionInfo
 from ..pitlib import analyse_masker, frozen_masker_classes, storage_kinds
 from ..sym import NONE, Term, mentions, show, subterms
-from ..util import (SELF, arg, callee, events_inlined, guards_of, is_call, method_call, paths, returning, short,
+from ..util import (SELF, arg, callee, events_inlined, guards_of, is_call, method_call, path_guards, paths, returning, short,
                     where)
 
 EXPLANATION = ('Per-call path analysis: def-use of the parameter generators of the three wrappers, '
@@ -466,7 +466,10 @@ def r11d(ctx):
                 in_leaf_loop = any(c[0] == 'loop' and leaf_domain(repo, w, c[2]) for c in e.ctx)
                 from_leaf = mentions(recv, lambda x: x[0] == 'elem' and
                                      leaf_domain(repo, w, x[1]))
-                guards = guards_of(p, e) if e in p.events else []
+                # every decision that governs the store: enclosing tests and earlier
+                # "if ...: return" guards (a cached "nothing to do" test makes the switch depend
+                # on the history of calls, not on its argument)
+                guards = path_guards(p, e) if e in p.events else []
                 bad_guard = [a for a, v in guards
                              if not (is_call(a, 'builtins.hasattr', 'builtins.isinstance'))]
                 if not (in_leaf_loop and from_leaf and attr == name and
